@@ -83,8 +83,8 @@ def exc_json(e):
 class CrashFile:
     """File object for `open(cache, "wb")`: unbuffered, dies at the `at`-th write call."""
 
-    def __init__(self, path, at, calls):
-        self.raw = io.open(path, "wb", buffering=0)
+    def __init__(self, path, mode, at, calls):
+        self.raw = io.open(path, mode, buffering=0)
         self.at, self.calls, self.n = at, calls, 0
 
     def __enter__(self):
@@ -103,10 +103,10 @@ class CrashFile:
 
 
 def install_open(api, hook):
-    """`api.open` -> hook(path, mode, *a, **k) for binary writes of the cache, builtin otherwise."""
+    """`api.open` -> hook(path, mode) for any binary write access to the cache file, builtin otherwise."""
     def opener(path, mode="r", *a, **k):
-        if mode == "wb" and str(path).endswith(".pymoca_cache"):
-            return hook(path)
+        if "b" in mode and any(c in mode for c in "wax+") and str(path).endswith(".pymoca_cache"):
+            return hook(path, mode)
         return io.open(path, mode, *a, **k)
     api.open = opener
 
@@ -129,7 +129,13 @@ def check_convert_table(ctx, drv):
         w.write(0, "M.mo", text)
         ok, m, msg, kind = w.transfer({"cache": True}, [])
         if not ok:
-            raise HarnessError("baseline model does not compile: %s %s" % (m, msg))
+            rok, rm, rmsg = w.reference({"cache": True}, [])
+            if not rok:
+                raise HarnessError("baseline model does not compile: %s %s" % (rm, rmsg))
+            ctx.violation("transfer_model raised %s on a folder without a cache file" % m,
+                          {"stream": "interrupt", "text": text, "opts": {"cache": True}, "at": None, "calls": []},
+                          expected="compile and save", observed="%s: %s" % (m, msg), kind="crash")
+            return
         verdicts, excs = [], []
         for label, mk in EXC_TABLE:
             e = mk()
@@ -182,17 +188,22 @@ class CrashBench:
         self.w = G.CacheWorld(self.root)
         self.src_tick = self.w.write(0, "M.mo", text)
         self.ok = False
+        self.failed_baseline = False
         rok, rm, rmsg = self.w.reference(self.opts, [])
         if not rok:
             return
         self.ref = G.signature(rm, 2, 3)
         calls = []
-        install_open(api, lambda path: CrashFile(path, None, calls))
+        install_open(api, lambda path, mode: CrashFile(path, mode, None, calls))
         try:
             ok, m, msg, kind = self.w.transfer(self.opts, [])
         finally:
             uninstall_open(api)
         if not ok:
+            ctx.violation("transfer_model raised %s on a folder without a cache file" % m,
+                          {"stream": "interrupt", "text": text, "opts": self.opts, "at": None, "calls": []},
+                          expected="compile and save", observed="%s: %s" % (m, msg), kind="crash")
+            self.failed_baseline = True
             return
         with open(self.w.cache_path(), "rb") as f:
             self.B = f.read()
@@ -308,10 +319,10 @@ class CrashBench:
         w.model_ops[:] = self.model_prefix(False)
         start = len(w.model_ops)
 
-        def hook(path):
+        def hook(path, mode):
             if at is None:
                 raise SimCrash("died before open")
-            return CrashFile(path, at, [])
+            return CrashFile(path, mode, at, [])
         install_open(api, hook)
         try:
             w.spy_log.clear()
@@ -409,10 +420,10 @@ class Sched:
 
 
 class SchedFile:
-    def __init__(self, sched, i, path):
+    def __init__(self, sched, i, path, mode):
         self.sched, self.i, self.buf = sched, i, []
         sched.wait_turn(i, "open")
-        self.raw = io.open(path, "wb", buffering=0)
+        self.raw = io.open(path, mode, buffering=0)
         sched.done()
 
     def __enter__(self):
@@ -514,7 +525,7 @@ def run_schedule(ctx, bench, acts, f0, drv, sid):
         finally:
             sched.finish(i)
     api.load_model = load_hook
-    install_open(api, lambda p: SchedFile(sched, tl.i, p))
+    install_open(api, lambda p, mode: SchedFile(sched, tl.i, p, mode))
     try:
         ths = [threading.Thread(target=body, args=(i,)) for i in (0, 1)]
         for t in ths:
@@ -620,11 +631,14 @@ def make_benches(ctx, quick):
     for idx, (text, opts) in enumerate(specs):
         b = CrashBench(ctx, idx, text, opts)
         tries = 0
-        while not b.ok and tries < 5:      # generated model does not compile: draw another one
+        while not b.ok and not b.failed_baseline and tries < 5:      # generated model does not compile: draw another one
             b.close()
             tries += 1
             gm = G.gen_model(rng, size=2)
             b = CrashBench(ctx, idx, gm["text"], {})
+        if b.failed_baseline:
+            b.close()
+            continue
         if not b.ok:
             raise HarnessError("no compilable model for the crash bench")
         if not b.deterministic:
@@ -655,6 +669,10 @@ def run(ctx):
         replay(ctx, {"case": c["case"] if "case" in c else c})
     check_convert_table(ctx, drv)
     benches = make_benches(ctx, quick)
+    if ctx.violations or not benches:
+        for b in benches:
+            b.close()
+        return
     try:
         # ---- interruptions of save_model at every write call ------------------------------------------
         for b in benches:
@@ -663,23 +681,25 @@ def run(ctx):
                     continue     # dying after the last write call = complete file (covered by offset N)
                 if not b.interruption(at, drv):
                     return
-        # ---- interleavings -----------------------------------------------------------------------------
+        # ---- interleavings (all drawn first: the case sequence depends on the seed only) ----------------
         nint = 16 if quick else 300
+        scheds = []
         for j in range(nint):
+            b = benches[j % len(benches)]
+            r = ctx.rng.random()
+            f0 = None if r < 0.6 else b.B[:ctx.rng.randrange(0, len(b.B))] if r < 0.85 else b.B
+            scheds.append((b, f0, gen_schedule(ctx.rng, len(b.B), f0 == b.B)))
+        plans = [offsets_for(b, ctx.rng, quick, 70 if quick else 2500) for b in benches]
+        for j, (b, f0, acts) in enumerate(scheds):
             if ctx.time_left() < (22 if quick else 200):
                 ctx.notes.append("interleavings stopped by the time budget after %d of %d" % (j, nint))
                 break
-            b = benches[j % len(benches)]
             if not b.deterministic:
                 continue
-            r = ctx.rng.random()
-            f0 = None if r < 0.6 else b.B[:ctx.rng.randrange(0, len(b.B))] if r < 0.85 else b.B
-            acts = gen_schedule(ctx.rng, len(b.B), f0 == b.B)
             run_schedule(ctx, b, acts, f0, drv, j)
             if ctx.violations:
                 return
         # ---- truncation at byte offsets: first the mandatory ones for every model, then samples ---------
-        plans = [offsets_for(b, ctx.rng, quick, 70 if quick else 2500) for b in benches]
         if quick:   # every offset < 64 and the last 8 on the first model; the ends only on the others
             plans = [(base if n == 0 else [0, 1, 2, 3, len(b.B) - 1, len(b.B)], extra)
                      for n, (b, (base, extra)) in enumerate(zip(benches, plans))]
@@ -737,6 +757,8 @@ def replay(ctx, payload):
         return
     b = CrashBench(ctx, 900, c["text"], {k: v for k, v in c["opts"].items() if k != "cache"})
     try:
+        if b.failed_baseline:
+            return
         if not b.ok:
             raise HarnessError("replay model does not compile")
         if c["stream"] == "truncate":
